@@ -23,6 +23,7 @@
  *                          proved invariant elsewhere; gej_set_ge: exact adapter)
  *        RP_STUB_XQUAD  RP_STUB_ISSQUARE  RP_STUB_ADD_GE  RP_STUB_ADD_VAR  RP_STUB_SHA  RP_STUB_PED_SMALL
  *        RP_STUB_PED  RP_STUB_BORRO_VERIFY  RP_STUB_BORRO_SIGN  RP_STUB_SET_GEJ  RP_STUB_ECMULT
+ *        RP_STUB_WINDOW (flag-logging variant of readers/xquad/add_ge for loop-contract units)  RP_STUB_SHA_KEYED
  *        RP_STUB_GET_B32  RP_STUB_SCALAR_ALG  RP_STUB_MEMCPY  RP_STUB_MEMSET  RP_STUB_CLEAR
  *
  * Ghost logs are WATCH style: the harness fixes a selector (g_*_watch call number, g_*_wp buffer
@@ -173,7 +174,7 @@ __CPROVER_ensures(__CPROVER_return_value == (be256(a) < P_()) && (__CPROVER_retu
 /* ====================================================================================================
  * (B) call-site stubs
  * ==================================================================================================== */
-#if defined(RP_STUB_READERS) || defined(RP_STUB_XQUAD) || defined(RP_STUB_ISSQUARE) || defined(RP_STUB_ADD_GE) || defined(RP_STUB_ADD_VAR) || \
+#if defined(RP_STUB_WINDOW) || defined(RP_STUB_READERS) || defined(RP_STUB_XQUAD) || defined(RP_STUB_ISSQUARE) || defined(RP_STUB_ADD_GE) || defined(RP_STUB_ADD_VAR) || \
     defined(RP_STUB_SHA) || defined(RP_STUB_SHA_KEYED) || defined(RP_STUB_PED_SMALL) || defined(RP_STUB_PED) || defined(RP_STUB_BORRO_VERIFY) || defined(RP_STUB_BORRO_SIGN) || \
     defined(RP_STUB_SET_GEJ) || defined(RP_STUB_ECMULT) || defined(RP_STUB_GET_B32) || defined(RP_STUB_SCALAR_ALG) || defined(RP_STUB_MEMCPY) || defined(RP_STUB_MEMSET) || defined(RP_STUB_CLEAR)
 /* the real definitions first */
@@ -259,6 +260,77 @@ static void rp_adapt_gej_set_ge(secp256k1_gej *r, const secp256k1_ge *a) {
     secp256k1_gej_set_ge(&t, a);
     *r = t;
 #endif
+}
+#endif
+
+
+#ifdef RP_STUB_WINDOW  /* Variant of the reader / lift / accumulate stubs for units that put the ring loops of verify_impl under LOOP
+   CONTRACTS: the logs are flat int FLAGS (loop invariants may only mention plain expressions), computed inside the stubs from values.
+   Watched digit: buffer position rpl_fl_wp.  "Window" = from the read of the watched digit to the next digit read; the first lift and
+   the first accumulation inside the window belong to the watched digit (no call counts, robust against equal values in other digits).
+   Watched ring scalar: buffer position rpl_sb_wp.  rpl_*_w* (the REAL reader's result on the watched bytes) and rpl_commit are set once
+   by the harness before the call and never assigned afterwards. */
+const unsigned char *rpl_fl_wp, *rpl_sb_wp; secp256k1_fe rpl_fl_wr; int rpl_fl_wv; secp256k1_scalar rpl_sb_wr; int rpl_sb_wovf; secp256k1_ge rpl_commit;
+int rpl_fl_hit, rpl_fl_now, rpl_fl_all, rpl_xq_hit, rpl_xq_v, rpl_xq_all, rpl_ag_hit, rpl_ag_same, rpl_ag_negd, rpl_ag_last_inf, rpl_ag_last_is_commit, rpl_sb_hit, rpl_sb_any;
+secp256k1_ge rpl_xq_r;
+static void rpl_watch_fe(const unsigned char *p) { rpl_fl_wp = p; if (p != NULL) rpl_fl_wv = secp256k1_fe_impl_set_b32_limit(&rpl_fl_wr, p); }
+static void rpl_watch_scalar(const unsigned char *p) { rpl_sb_wp = p; if (p != NULL) secp256k1_scalar_set_b32(&rpl_sb_wr, p, &rpl_sb_wovf); }
+#define RPL_RESET() do { rpl_fl_hit = 0; rpl_fl_now = 0; rpl_fl_all = 1; rpl_xq_hit = 0; rpl_xq_v = 0; rpl_xq_all = 1; rpl_ag_hit = 0; rpl_ag_same = 0; rpl_ag_negd = 0; \
+    rpl_ag_last_inf = 0; rpl_ag_last_is_commit = 0; rpl_sb_hit = 0; rpl_sb_any = 0; rpl_fl_wp = NULL; rpl_sb_wp = NULL; } while (0)
+static int rpl_stub_fe_set_b32_limit(secp256k1_fe *r, const unsigned char *a) {
+    int ret;
+    RP_PRE(__CPROVER_r_ok(a, 32), "fe_set_b32_limit reads 32 bytes");
+    if (a == rpl_fl_wp) { *r = rpl_fl_wr; ret = rpl_fl_wv; rpl_fl_hit = 1; rpl_fl_now = 1; }
+    else {
+        secp256k1_fe t;
+        t.n[0] = nondet_rp_u64(); t.n[1] = nondet_rp_u64(); t.n[2] = nondet_rp_u64(); t.n[3] = nondet_rp_u64(); t.n[4] = nondet_rp_u64(); ret = nondet_rp_int();
+        __CPROVER_assume((t.n[0] >> 52) == 0 && (t.n[1] >> 52) == 0 && (t.n[2] >> 52) == 0 && (t.n[3] >> 52) == 0 && (t.n[4] >> 48) == 0 && (ret == 0 || ret == 1)); /* proved in C10.leaf_fe_set_b32_limit */
+        *r = t; rpl_fl_now = 0;
+    }
+    rpl_fl_all = rpl_fl_all && ret;
+    return ret;
+}
+static void rpl_stub_scalar_set_b32(secp256k1_scalar *r, const unsigned char *b32, int *overflow) {
+    int ov;
+    RP_PRE(__CPROVER_r_ok(b32, 32), "scalar_set_b32 reads 32 bytes");
+    if (b32 == rpl_sb_wp) { *r = rpl_sb_wr; ov = rpl_sb_wovf; rpl_sb_hit = 1; }
+    else {
+        secp256k1_scalar t = nondet_rp_scalar(); ov = nondet_rp_int();
+        __CPROVER_assume(scalar_ok(&t) && (ov == 0 || ov == 1));      /* invariant proved in C10.leaf_scalar_set_b32 */
+        *r = t;
+    }
+    if (overflow != NULL) { *overflow = ov; rpl_sb_any = rpl_sb_any || ov; }
+}
+static int rpl_stub_ge_set_xquad(secp256k1_ge *r, const secp256k1_fe *x) {
+    secp256k1_ge t = nondet_rp_ge(); int ret = nondet_rp_int();
+    RP_PRE(fe_mag(x, 8), "ge_set_xquad: x is a valid field element (fe_sqr takes magnitude <= 8)");
+    __CPROVER_assume(ge_ok1(&t) && (ret == 0 || ret == 1));
+    t.x = *x; t.infinity = 0;
+    if (rpl_fl_now && !rpl_xq_hit && FE_EQ(t.x, rpl_fl_wr)) { rpl_xq_hit = 1; rpl_xq_v = ret; rpl_xq_r = t; }
+    rpl_xq_all = rpl_xq_all && ret;
+    *r = t;
+    return ret;
+}
+static void rpl_stub_gej_add_ge_var(secp256k1_gej *r, const secp256k1_gej *a, const secp256k1_ge *b, secp256k1_fe *rzr) {
+    secp256k1_gej t = nondet_rp_gej(); secp256k1_ge bv = *b;
+    RP_PRE(rp_gej_ok(a) && rp_ge_ok(b), "gej_add_ge_var operands in representation range");
+    __CPROVER_assume(gej_ok(&t));
+    if (rpl_fl_now && rpl_xq_hit && !rpl_ag_hit) {
+        secp256k1_ge ng = rpl_xq_r;
+        secp256k1_ge_neg(&ng, &ng);
+        rpl_ag_hit = 1;
+        rpl_ag_same = FE_EQ(bv.x, rpl_xq_r.x) && FE_EQ(bv.y, rpl_xq_r.y) && bv.infinity == 0;
+        rpl_ag_negd = FE_EQ(bv.x, ng.x) && FE_EQ(bv.y, ng.y) && bv.infinity == 0;
+    }
+    rpl_ag_last_inf = t.infinity;
+    rpl_ag_last_is_commit = FE_EQ(bv.x, rpl_commit.x) && FE_EQ(bv.y, rpl_commit.y) && bv.infinity == rpl_commit.infinity;
+    if (rzr != NULL) { rzr->n[0] = nondet_rp_u64(); rzr->n[1] = nondet_rp_u64(); rzr->n[2] = nondet_rp_u64(); rzr->n[3] = nondet_rp_u64(); rzr->n[4] = nondet_rp_u64(); }
+    *r = t;
+}
+static void rpl_frame_gej_set_ge(secp256k1_gej *r, const secp256k1_ge *a) {
+    secp256k1_ge u = *a; (void)u;
+    RP_PRE(__CPROVER_w_ok(r, sizeof(*r)), "gej_set_ge destination writable");
+    __CPROVER_havoc_object(r);
 }
 #endif
 
@@ -633,6 +705,13 @@ static void *rp_stub_memcpy(void *dst, const void *src, size_t n) {
 #endif
 
 /* ---- the renames: every USE below this line goes to the stub ---- */
+#ifdef RP_STUB_WINDOW
+# define secp256k1_scalar_set_b32 rpl_stub_scalar_set_b32
+# define secp256k1_fe_impl_set_b32_limit rpl_stub_fe_set_b32_limit
+# define secp256k1_ge_set_xquad rpl_stub_ge_set_xquad
+# define secp256k1_gej_add_ge_var rpl_stub_gej_add_ge_var
+# define secp256k1_gej_set_ge rpl_frame_gej_set_ge
+#endif
 #ifdef RP_STUB_READERS
 # define secp256k1_scalar_set_b32 rp_stub_scalar_set_b32
 # define secp256k1_fe_impl_set_b32_limit rp_stub_fe_set_b32_limit
